@@ -69,37 +69,131 @@ def check_wrapper(prog, res, rule, wrap_ty, name, acc):
         res.violate(rule, w, "wrapper", "wrapper `%s` does not forward to `%s`" % (w, acc), wb.where())
 
 
+_ICR = {}
+
+
 def int_conversion_ranges(prog, fn_path, lo=0, hi=255):
-    """Set of argument values for which a small integer->id conversion returns Ok, by evaluating the
-    polynomial atoms of its accept paths for every value of the (finite) domain; also whether the Ok
-    payload stores the argument (minus a constant) injectively. Static: nothing is executed."""
+    """Set of argument values for which a small integer->id conversion returns Ok: the guard formula of its
+    accept paths (polynomial atoms over the argument, 0/1 comparison flags, nested conversions) is evaluated
+    for every value of the finite argument domain.  Also whether the Ok payload stores the argument."""
+    key = (id(prog), fn_path, lo, hi)
+    if key in _ICR:
+        return _ICR[key]
+    _ICR[key] = (set(), [], [("recursive",)])
     tabs, an, sy = accept.accept_tables(prog, fn_path)
     from ..sym import forward_paths, path_atoms
     allowed = set()
     unknown = []
+
+    def sym_value(name, v):
+        if name == "arg1":
+            return v
+        if name in sy.b2i:
+            op, pa, pb = sy.b2i[name]
+            a, b = poly_value(pa, v), poly_value(pb, v)
+            if a is None or b is None:
+                return None
+            return int({"Lt": a < b, "Le": a <= b, "Gt": a > b, "Ge": a >= b, "Eq": a == b, "Ne": a != b}[op])
+        return None
+
+    def poly_value(p, v):
+        env = {}
+        for s_ in p.syms():
+            x = sym_value(s_, v)
+            if x is None:
+                return None
+            env[s_] = x
+        return p.subs(env)
+    paths = []
     for bb, t in an.ok_sites():
         for path in forward_paths(an, bb) or []:
-            ats = accept.simplify(path_atoms(sy, path))
-            if ats is None:
-                continue
-            for v in range(lo, hi + 1):
-                ok = True
-                for a in ats:
-                    if a[0] != "rel":
-                        unknown.append(a)
+            sy.set_path(path[1])
+            ats = []
+            for (s_, t_) in path[0]:
+                ats += sy.atoms_of_edge(s_, t_)
+            paths.append(ats)
+            sy.set_path(None)
+    # Every guard compares `arg1 (+ bounded 0/1 flags) + constant` with 0 (coefficient of arg1 in {0, +-1}):
+    # beyond the largest constant involved (plus slack) all truth values are constant, so one representative
+    # decides the whole tail.  Otherwise the full domain is enumerated.
+    import re as _re
+    consts = [0]
+    simple = True
+    for ats in paths:
+        for a in ats:
+            if a[0] == "rel":
+                for m_, c_ in a[2].m.items():
+                    if m_ == ():
+                        consts.append(abs(int(c_)))
+                    elif m_ == ("arg1",):
+                        simple = simple and c_ in (1, -1)
+                    elif len(m_) == 1 and m_[0] in sy.b2i:
+                        consts.append(abs(int(c_)))
+                        consts += [abs(int(x)) for x in _re.findall(r"\d+", m_[0])]
+                    else:
+                        simple = False
+            elif a[0] == "ok" and len(a) > 2:
+                consts += [abs(int(x)) for x in _re.findall(r"\d+", a[1])[-8:]]
+    K = max(consts) * 2 + 64
+    tail_rep = None
+    if simple and hi - lo > 2 * K + 2 and lo >= 0:
+        values = list(range(lo, lo + K + 1))
+        tail_rep = hi
+    elif hi - lo > 200000:
+        _ICR[key] = (set(), [], [("domain too large for a guard formula that is not of the simple form",)])
+        return _ICR[key]
+    else:
+        values = list(range(lo, hi + 1))
+    for v in values + ([tail_rep] if tail_rep is not None else []):
+        for ats in paths:
+            ok = True
+            for a in ats:
+                if a[0] == "rel":
+                    val = poly_value(a[2], v)
+                    if val is None:
+                        unknown.append(a[:2])
                         ok = False
                         break
-                    p, op = a[2], a[3]
-                    if p.syms() not in ([], ["arg1"]):
-                        unknown.append(a)
-                        ok = False
-                        break
-                    val = p.subs({"arg1": v})
+                    op = a[3]
                     if not ((op == ">=" and val >= 0) or (op == "==" and val == 0) or (op == "!=" and val != 0)):
                         ok = False
                         break
-                if ok:
-                    allowed.add(v)
+                elif a[0] == "ok" and len(a) > 2 and a[2][0] == "call" and len(a[2][2]) == 1:
+                    callee = sy.call_sig(a[2])
+                    pv = None
+                    ap = sy.poly(a[2][2][0])
+                    if ap is not None:
+                        pv = poly_value(ap, v)
+                    if callee in prog.bodies and pv is not None:
+                        cb = prog.bodies[callee]
+                        cty = cb.locals[1]["ty"] if cb.argc >= 1 else {}
+                        if cty.get("k") == "int" and cty["w"] <= 16:
+                            clo, chi = (0, (1 << cty["w"]) - 1) if not cty["s"] else (-(1 << (cty["w"] - 1)), (1 << (cty["w"] - 1)) - 1)
+                            sub_allowed, _, sub_unknown = int_conversion_ranges(prog, callee, clo, chi)
+                            if sub_unknown:
+                                unknown.append(("nested", callee))
+                                ok = False
+                                break
+                            # a value outside the callee's parameter type would have failed an earlier checked operation
+                            if int(pv) not in sub_allowed:
+                                ok = False
+                                break
+                            continue
+                    unknown.append(a[:2])
+                    ok = False
+                    break
+                elif a[0] == "false":
+                    ok = False
+                    break
+                else:
+                    unknown.append(a[:2])
+                    ok = False
+                    break
+            if ok:
+                allowed.add(v)
+                break
+    if tail_rep is not None and tail_rep in allowed:
+        allowed.update(range(lo + K + 1, hi + 1))
     stored = []
     for bb, t in an.ok_sites():
         x = strip(t[2][0])
@@ -108,7 +202,13 @@ def int_conversion_ranges(prog, fn_path, lo=0, hi=255):
             stored.append(str(p) if p is not None else None)
         else:
             stored.append(None)
-    return allowed, stored, unknown
+    # de-duplicate the unknown list
+    seen = []
+    for u in unknown:
+        if u not in seen:
+            seen.append(u)
+    _ICR[key] = (allowed, stored, seen)
+    return _ICR[key]
 
 
 def ranges_of(values):
